@@ -15,4 +15,18 @@ PROPS = {
             "logging (tracing) and alloc::fmt::format are stubbed out",
         ],
     },
+    "C09": {
+        "design_ref": "DESIGN.md §3 C09",
+        "functions_encoded": [
+            "<T as ff::Serializable>::{serialize,deserialize} for T in Fp31, Fp32BitPrime, Fp61BitPrime, Boolean, Gf2..Gf40Bit, "
+            "BA3..BA256, UniqueTag, Seed, (Seed,Seed), Hash, AdditiveShare<T> (10 instantiations), StdArray<T,1>, StdArray<Fp32BitPrime,32>",
+        ],
+        "bounds": "all 2^(8N) byte strings of the advertised length N for every listed type (N <= 128 bytes); no value sampling",
+        "outside_claim": "RP25519/Fp25519 (curve arithmetic), QueryConfig through serde_urlencoded/serde_json, "
+                         "Box<[Fp61BitPrime; ARRAY_LEN]> / [Hash; 14] proof arrays (heap Vec collection of 100+ elements)",
+        "assumptions": [
+            "GenericArray buffers are views over plain byte arrays (from_slice / from_mut_slice)",
+            "logging (tracing) and alloc::fmt::format are stubbed out",
+        ],
+    },
 }
